@@ -127,8 +127,10 @@ impl World {
         self.transmit(pid, &s, kind, v, &d, damage, rng);
     }
     /// one packet on every PID of interest
-    pub fn probes(&mut self, rng: &mut Rng) {
-        let mut pids: Vec<u16> = self.pool.clone();
+    pub fn probes(&mut self, rng: &mut Rng) { self.probes_except(0xffff, rng) }
+    /// ... except on PID `skip` (a packet on a PID without handler makes the application install one)
+    pub fn probes_except(&mut self, skip: u16, rng: &mut Rng) {
+        let mut pids: Vec<u16> = self.pool.iter().cloned().filter(|p| *p != skip).collect();
         for (_, p) in self.progs.iter() { pids.push(*p); }
         for p in self.pmts.keys() { if !pids.contains(p) { pids.push(*p); } }
         for pid in pids {
@@ -242,8 +244,8 @@ pub fn gen_c05(tier: &str, seed: u64, emit: &mut dyn FnMut(String)) {
             // the shared PID is dropped by the first program, then by the second one TOGETHER with another of its streams:
             // a Remove of a PID that has no handler any more precedes the Remove of one that has
             let l = w.live_pmt_pids(); let (p1, p2) = (l[0], l[1]);
-            let x = w.pmts[&p1].streams[0].1;
-            if w.pmts[&p2].streams.iter().any(|s| s.1 == x) && x < 0x1ff0 {
+            let x = w.pmts[&p1].streams.iter().map(|s| s.1).find(|q| w.pmts[&p2].streams.iter().any(|s| s.1 == *q)).unwrap_or(0x1fff);
+            if x < 0x1ff0 {
                 // the second program first gains a stream Y on a PID above X (Removes are queued in ascending PID order)
                 let used: Vec<u16> = w.pool.iter().cloned().chain(w.progs.iter().map(|q| q.1)).chain(w.pmts.values().flat_map(|m| m.streams.iter().map(|s| s.1))).collect();
                 let mut y = x + 1; while used.contains(&y) { y += 1; }
@@ -251,7 +253,7 @@ pub fn gen_c05(tier: &str, seed: u64, emit: &mut dyn FnMut(String)) {
                 w.send_pmt(p2, "new", 0, false, &mut rng);
                 { let idx = w.mux.pkts.len(); let pl = rng.bytes(184); w.mux.data_packet(y, false, &pl, &mut rng); w.notes.push(format!("P|{}|{}", y, idx)); }
                 { let m = w.pmts.get_mut(&p1).unwrap(); m.version = (m.version + 1) & 31; m.streams.retain(|s| s.1 != x); if m.streams.is_empty() { m.streams.push((0x1b, 0x1f00)); } }
-                w.send_pmt(p1, "new", 0, false, &mut rng); w.probes(&mut rng);
+                w.send_pmt(p1, "new", 0, false, &mut rng); w.probes_except(x, &mut rng);
                 { let m = w.pmts.get_mut(&p2).unwrap(); m.version = (m.version + 1) & 31;
                   m.streams.retain(|s| s.1 != x && s.1 != y); if m.streams.is_empty() { m.streams.push((0x1b, 0x1f01)); } }
                 w.send_pmt(p2, "new", 0, false, &mut rng); w.probes(&mut rng);
